@@ -572,6 +572,8 @@ def sections(ctx, crate, E):
                     elif src[0] == "place" and src[1].root[0] == "local":
                         pos[("local", src[1].root[1])] = k
     if len(pos) != 3:
+        if _sections_indexed(ctx, crate, fa, p, want):
+            return
         raise EngineError("SECTIONS: the (unigram, left, right) result tuple of parse_rewrite_config "
                           "was not recognised")
     found = {}
@@ -618,6 +620,114 @@ def sections(ctx, crate, E):
                "%s fills the builder returned in position %d of (unigram, left, right)" % (lit, k) if ok else
                "%s fills the builder returned in position %s (expected %d): the rules of one section "
                "are applied to another feature side" % (lit, found.get(lit), k))
+
+
+def _sections_indexed(ctx, crate, fa, p, want):
+    """The three builders kept in one array `[new(), new(), new()]`, the current section as an index:
+    header k stores `Some(j)`, rules go to `builders[j]`, and element j of the array ends up in
+    position pos[j] of the returned tuple - header k must reach position k."""
+    def follow(op):
+        pl = op_place(op)
+        for _ in range(8):
+            if pl is None or pl["p"]:
+                return pl
+            d = fa.single_def(pl["l"])
+            if d is None or d[2] != "assign" or d[3]["k"] != "use" or op_place(d[3]["op"]) is None:
+                return pl
+            pl = op_place(d[3]["op"])
+        return pl
+    arrays = [s0["lhs"]["l"] for b, i, s0 in fa.stmts()
+              if "rv" in s0 and s0["rv"]["k"] == "agg" and s0["rv"].get("agg") == "array" and len(s0["rv"]["ops"]) == 3
+              and not s0["lhs"]["p"]]
+    pos = {}
+    arr = None
+    for b, i, s0 in fa.stmts():
+        rv = s0.get("rv")
+        if rv and rv["k"] == "agg" and rv.get("agg") == "tuple" and len(rv["ops"]) == 3:
+            for k, o in enumerate(rv["ops"]):
+                oo = fa.origin(o)
+                if oo[0] == "call" and "from" in _names(oo[2]) and oo[2]["args"]:
+                    pl = follow(oo[2]["args"][0])
+                    ci = [e for e in (pl["p"] if pl else []) if isinstance(e, dict) and "ci" in e and not e.get("from_end")]
+                    if pl is not None and pl["l"] in arrays and len(ci) == 1 and len(pl["p"]) == 1:
+                        pos[ci[0]["ci"]] = k
+                        arr = pl["l"]
+    if len(pos) != 3 or arr is None:
+        return False
+    # the index variable: `builders[idx]` as the receiver of add_rule
+    idx_locals = set()
+    for b, i, s0 in fa.stmts():
+        rv = s0.get("rv")
+        if rv and rv["k"] == "ref" and rv["place"]["l"] == arr:
+            idx_locals |= {e["i"] for e in rv["place"]["p"] if isinstance(e, dict) and isinstance(e.get("i"), int)}
+    from flow import back_slice
+    sect = set()
+    for il in idx_locals:
+        for x in back_slice(fa, {"c": {"l": il, "p": []}}, lambda b, t: None):
+            pass
+        # locals the index is copied from (the payload of the section variable)
+        cur = {"l": il, "p": []}
+        for _ in range(6):
+            d = fa.single_def(cur["l"])
+            if d is None or d[2] != "assign" or d[3]["k"] != "use" or op_place(d[3]["op"]) is None:
+                break
+            cur = op_place(d[3]["op"])
+            if cur["p"]:
+                sect.add(cur["l"])
+                break
+    if len(sect) != 1:
+        return False
+    sv = next(iter(sect))
+    found = {}
+    for b, t in fa.calls():
+        if not (_names(t) & {"eq", "ne"}) or len(t["args"]) != 2:
+            continue
+        lit = None
+        for a in t["args"]:
+            o = fa.origin(a)
+            if o[0] == "const" and o[1].get("str") in want:
+                lit = o[1]["str"]
+        if lit is None:
+            continue
+        sw = t.get("t")
+        st = fa.term(sw) if sw is not None else None
+        if st is None or st["k"] != "switch":
+            continue
+        f_t, t_t = bool_switch_targets(st)
+        arm = t_t if "eq" in _names(t) else f_t
+        other = f_t if "eq" in _names(t) else t_t
+        order, seen_b = [arm], {arm, other}
+        for ab in order:
+            for x in fa.succs(ab):
+                if x not in seen_b and not fa.blocks[x].get("cleanup"):
+                    seen_b.add(x)
+                    order.append(x)
+        hit = None
+        some = {}           # temporaries holding `Some(<constant>)`
+        for ab in order:
+            for s0 in fa.blocks[ab]["stmts"]:
+                rv = s0.get("rv")
+                if "lhs" not in s0 or s0["lhs"]["p"] or not rv:
+                    continue
+                val = None
+                if rv["k"] == "agg" and rv.get("variant") == "Some" and len(rv["ops"]) == 1:
+                    k0 = op_const(rv["ops"][0])
+                    val = k0["int"] if k0 is not None and "int" in k0 else None
+                    some[s0["lhs"]["l"]] = val
+                elif rv["k"] == "use" and op_place(rv["op"]) is not None and not op_place(rv["op"])["p"]:
+                    val = some.get(op_place(rv["op"])["l"])
+                if s0["lhs"]["l"] == sv and val is not None and hit is None:
+                    hit = pos.get(val, "element %s" % val)
+            if hit is not None:
+                break
+        found[lit] = hit
+    for lit, k in want.items():
+        ok = found.get(lit) == k
+        ctx.ob("SECTIONS", "%s|%s" % (P_CFG, lit), ok, _loc(crate, p),
+               "%s fills the builder returned in position %d of (unigram, left, right)" % (lit, k) if ok else
+               "%s fills the builder returned in position %s (expected %d): the rules of one section "
+               "are applied to another feature side" % (lit, found.get(lit), k))
+    return True
 
 
 def rulecells(ctx, crate, E):
